@@ -414,7 +414,8 @@ _KNOWN_METHODS = {
              '__contains__', 'count', 'clear'},
     'tuple': {'index', 'count'},
     'dict': {'get', 'items', 'keys', 'values', 'copy', 'update', 'pop', 'setdefault'},
-    'set': {'add'}, 'frozenset': set(),
+    'set': {'add', 'update', 'discard', 'remove', 'union', 'intersection', 'difference', 'issubset', 'issuperset', 'isdisjoint', 'copy', 'clear'},
+    'frozenset': {'union', 'intersection', 'difference', 'issubset', 'issuperset', 'isdisjoint', 'copy'},
     'str': {'format', 'join', 'upper', 'lower', 'strip', 'lstrip', 'rstrip', 'split', 'replace', 'startswith',
             'endswith', 'isdigit', 'find', 'count', 'index', 'rsplit', 'splitlines', 'title', 'capitalize',
             'isalpha', 'isupper', 'islower'},
@@ -514,6 +515,24 @@ def call_bound(it, recv, name, args, kwargs):
     if isinstance(recv, (set, frozenset)):
         if name == 'add':
             recv.add(_hashable(args[0]))
+            return None
+        if name == 'update':
+            for a in args:
+                for x in it.iterate(a):
+                    recv.add(_hashable(x))
+            return None
+        if name in ('discard', 'remove'):
+            h = _hashable(args[0])
+            if h in recv:
+                recv.remove(h)
+            elif name == 'remove':
+                raise PyRaise('KeyError')
+            return None
+        if name in ('union', 'intersection', 'difference', 'issubset', 'issuperset', 'isdisjoint', 'copy'):
+            others = [set(_hashable(x) for x in it.iterate(a)) for a in args]
+            return getattr(set(recv), name)(*others)
+        if name == 'clear':
+            recv.clear()
             return None
     if isinstance(recv, str):
         if name == 'format':
